@@ -12,11 +12,12 @@ use simcore::ctx::{Ctx, Verdict, Violation};
 use simcore::driver::Scenario;
 use simcore::model::*;
 use simcore::seams::*;
-use simcore::{ensure, ev};
+use simcore::{ensure, ev, violation};
 use sophia_api::graph::{CollectibleGraph, Graph, MutableGraph};
 use sophia_api::quad::Spog;
 use sophia_api::serializer::{QuadSerializer, TripleSerializer};
 use sophia_api::source::{QuadSource, StreamError, TripleSource};
+use sophia_api::term::matcher::Any;
 use sophia_api::term::SimpleTerm;
 use sophia_inmem::graph::{GenericFastGraph, GenericLightGraph};
 use sophia_inmem::index::{Index, SimpleTermIndex, TermIndexFullError};
@@ -251,6 +252,8 @@ struct Outcome {
     /// step-wise driving: Ok(false) was returned although items were still to come
     early_false: bool,
     sim_events: u64,
+    /// the target store answered its own pattern queries inconsistently afterwards
+    incoherent: Option<String>,
 }
 
 fn stream_res<T, E1, E2>(r: Result<T, StreamError<E1, E2>>) -> (Option<T>, Res)
@@ -434,10 +437,66 @@ struct Drive<'a> {
     out: &'a mut Outcome,
 }
 
+thread_local! {
+    /// set by `graph_content` when the target store answers its own pattern queries inconsistently
+    static INCOHERENT: std::cell::RefCell<Option<String>> = const { std::cell::RefCell::new(None) };
+}
+
+/// Content of the target store as `triples()` enumerates it. The store is also asked for every
+/// member through each of the 7 other bound/unbound pattern shapes (each shape may be served
+/// by another index): a member that some shape does not find, or finds more than once in a set,
+/// means the consumer left the store half-updated.
 fn graph_content<G: Graph>(g: &G) -> Vec<MTriple> {
-    g.triples()
+    let content: Vec<MTriple> = g
+        .triples()
         .map(|t| triple_from(t.unwrap_or_else(|_| panic!("ORACLE: graph iteration failed"))))
-        .collect()
+        .collect();
+    let distinct: BTreeSet<&MTriple> = content.iter().collect();
+    for t in &distinct {
+        let st = triple_to_simple(t);
+        for shape in 1u8..8 {
+            let sm: Option<&SimpleTerm> = (shape & 1 != 0).then_some(&st[0]);
+            let pm: Option<&SimpleTerm> = (shape & 2 != 0).then_some(&st[1]);
+            let om: Option<&SimpleTerm> = (shape & 4 != 0).then_some(&st[2]);
+            let found = match (sm, pm, om) {
+                (Some(s), None, None) => count_eq(g.triples_matching([s], Any, Any), t),
+                (None, Some(p), None) => count_eq(g.triples_matching(Any, [p], Any), t),
+                (Some(s), Some(p), None) => count_eq(g.triples_matching([s], [p], Any), t),
+                (None, None, Some(o)) => count_eq(g.triples_matching(Any, Any, [o]), t),
+                (Some(s), None, Some(o)) => count_eq(g.triples_matching([s], Any, [o]), t),
+                (None, Some(p), Some(o)) => count_eq(g.triples_matching(Any, [p], [o]), t),
+                (Some(s), Some(p), Some(o)) => count_eq(g.triples_matching([s], [p], [o]), t),
+                (None, None, None) => 1,
+            };
+            let listed = content.iter().filter(|x| x == t).count();
+            if found != listed {
+                INCOHERENT.with(|i| {
+                    i.borrow_mut().get_or_insert_with(|| {
+                        format!(
+                            "triples() lists {} {listed} time(s) but the pattern query binding {}{}{} finds it {found} time(s)",
+                            fmt_ts(std::slice::from_ref(*t)),
+                            if shape & 1 != 0 { "s" } else { "?" },
+                            if shape & 2 != 0 { "p" } else { "?" },
+                            if shape & 4 != 0 { "o" } else { "?" },
+                        )
+                    });
+                });
+            }
+        }
+    }
+    content
+}
+
+fn count_eq<'a, I, T, E>(it: I, t: &MTriple) -> usize
+where
+    I: Iterator<Item = Result<T, E>> + 'a,
+    T: sophia_api::triple::Triple,
+{
+    it.filter(|r| match r {
+        Ok(x) => &triple_from([x.s(), x.p(), x.o()]) == t,
+        Err(_) => panic!("ORACLE: graph pattern query failed"),
+    })
+    .count()
 }
 
 fn mt(t: &STriple) -> MTriple {
@@ -988,7 +1047,9 @@ fn execute_inner(setup: &Setup, sf: SrcFault, kf: SinkFault) -> Outcome {
         read_fired: false,
         early_false: false,
         sim_events: 0,
+        incoherent: None,
     };
+    INCOHERENT.with(|i| i.borrow_mut().take());
     let qops: Vec<Op> = setup
         .qops
         .iter()
@@ -1101,6 +1162,7 @@ fn execute_inner(setup: &Setup, sf: SrcFault, kf: SinkFault) -> Outcome {
     }
     out.pulls = pulls.get();
     out.calls = ops.iter().chain(qops.iter()).map(|o| o.calls.get()).collect();
+    out.incoherent = INCOHERENT.with(|i| i.borrow_mut().take());
     out
 }
 
@@ -1436,6 +1498,9 @@ fn check(case: &Case<'_>, twin: &Outcome, out: &Outcome) -> Verdict {
     }
 
     // ===== 4. resulting state
+    if let Some(why) = &out.incoherent {
+        violation!(oracle("target_store_incoherent"), "{d}: after the stream ended ({}) the target store is not coherent: {why}", out.res.name());
+    }
     let is_set_target = matches!(
         c,
         Consumer::CollectBTree | Consumer::CollectHash | Consumer::CollectFast | Consumer::CollectLight
